@@ -24,6 +24,10 @@ fn rec_of_id(id: &str) -> i64 {
 
 /// s2m file: "id\tKMER:s-e\tKMER:s-e\t\n"
 pub fn decode_s2m(path: &str, evs: &mut Vec<Value>) {
+    decode_s2m_with(path, evs, &|name| rec_of_id(name))
+}
+
+pub fn decode_s2m_with(path: &str, evs: &mut Vec<Value>, id_of: &dyn Fn(&str) -> i64) {
     let lines = lines_of(path);
     for l in &lines {
         let mut toks: Vec<&str> = l.split('\t').collect();
@@ -31,7 +35,7 @@ pub fn decode_s2m(path: &str, evs: &mut Vec<Value>) {
         if toks.last() == Some(&"") {
             toks.pop();
         }
-        let rec = toks.first().map(|s| rec_of_id(s)).unwrap_or(-1);
+        let rec = toks.first().map(|s| id_of(s)).unwrap_or(-1);
         let mut runs: Vec<Value> = Vec::new();
         for t in toks.iter().skip(1) {
             let parsed = t.split_once(':').and_then(|(k, se)| se.split_once('-').map(|(s, e)| (k, s, e)));
@@ -45,24 +49,33 @@ pub fn decode_s2m(path: &str, evs: &mut Vec<Value>) {
     evs.push(json!({"ev":"outlines","n":lines.len()}));
 }
 
-/// m2s file: KMER\t[("id", s, e), ("id", s, e)]
+/// m2s file: KMER\t[("id", s, e), ("id", s, e)]  (Rust Debug rendering: ids are escaped string literals)
 pub fn decode_m2s(path: &str, evs: &mut Vec<Value>) {
+    decode_m2s_with(path, evs, &|name| rec_of_id(name))
+}
+
+pub fn decode_m2s_with(path: &str, evs: &mut Vec<Value>, id_of: &dyn Fn(&str) -> i64) {
     let lines = lines_of(path);
     for l in &lines {
         let (k, rest) = l.split_once('\t').unwrap_or((l.as_str(), ""));
-        let inner = rest.trim().trim_start_matches('[').trim_end_matches(']');
+        let b = rest.trim().as_bytes();
         let mut items: Vec<Value> = Vec::new();
-        for part in inner.split("), (") {
-            let p = part.trim_start_matches('(').trim_end_matches(')');
-            if p.is_empty() {
-                continue;
+        let mut ok = b.first() == Some(&b'[') && b.last() == Some(&b']');
+        let mut i = 1usize;
+        while ok && i < b.len() - 1 {
+            match parse_item(b, i) {
+                Some((name, s, e, next)) => {
+                    items.push(json!([id_of(&name), s, e]));
+                    i = next;
+                    if b[i..].starts_with(b", ") {
+                        i += 2;
+                    }
+                }
+                None => ok = false,
             }
-            let f: Vec<&str> = p.split(", ").collect();
-            if f.len() == 3 {
-                items.push(json!([rec_of_id(f[0].trim_matches('"')), f[1].parse::<i64>().unwrap_or(-1), f[2].parse::<i64>().unwrap_or(-1)]));
-            } else {
-                items.push(json!([-1, -1, -1]));
-            }
+        }
+        if !ok {
+            items.push(json!([-1, -1, -1]));      // a line that does not read back as a list of (name, start, end)
         }
         evs.push(json!({"ev":"m2sline","v":text_digits(k),"items":items}));
     }
@@ -77,6 +90,83 @@ pub struct MinCase {
     pub recs: Vec<Vec<u8>>,
     /// id number of each record (">r<id>"); not necessarily unique
     pub ids: Vec<usize>,
+    /// when set: the name written for id number i instead of "r<i>" (names with quotes, backslashes, brackets, ...)
+    pub names: Option<Vec<String>>,
+}
+
+impl MinCase {
+    fn name_of(&self, id: usize) -> String {
+        match &self.names {
+            Some(n) => n[id].clone(),
+            None => format!("r{}", id),
+        }
+    }
+    fn write_input(&self, path: &str) {
+        use std::io::Write;
+        let mut f = std::io::BufWriter::new(std::fs::File::create(path).unwrap());
+        for (i, s) in self.recs.iter().enumerate() {
+            writeln!(f, ">{}", self.name_of(self.ids[i])).unwrap();
+            f.write_all(s).unwrap();
+            f.write_all(b"\n").unwrap();
+        }
+    }
+    /// id number of a name read back from an output file (-1: no such name)
+    fn id_of(&self, name: &str) -> i64 {
+        match &self.names {
+            Some(n) => n.iter().position(|x| x == name).map(|p| p as i64).unwrap_or(-1),
+            None => rec_of_id(name),
+        }
+    }
+}
+
+/// one item `("<escaped>", s, e)` of Rust's Debug rendering of (String, usize, usize), starting at `i`; returns (name, s, e, next index)
+fn parse_item(b: &[u8], mut i: usize) -> Option<(String, i64, i64, usize)> {
+    if b.get(i) != Some(&b'(') || b.get(i + 1) != Some(&b'"') {
+        return None;
+    }
+    i += 2;
+    let mut name: Vec<u8> = Vec::new();
+    loop {
+        match *b.get(i)? {
+            b'"' => {
+                i += 1;
+                break;
+            }
+            b'\\' => {
+                match *b.get(i + 1)? {
+                    b'n' => name.push(b'\n'),
+                    b't' => name.push(b'\t'),
+                    b'r' => name.push(b'\r'),
+                    b'0' => name.push(0),
+                    b'\\' => name.push(b'\\'),
+                    b'"' => name.push(b'"'),
+                    b'\'' => name.push(b'\''),
+                    b'u' => {
+                        // \u{hex}
+                        let close = b[i..].iter().position(|&c| c == b'}')? + i;
+                        let hex = std::str::from_utf8(&b[i + 3..close]).ok()?;
+                        let ch = char::from_u32(u32::from_str_radix(hex, 16).ok()?)?;
+                        let mut buf = [0u8; 4];
+                        name.extend_from_slice(ch.encode_utf8(&mut buf).as_bytes());
+                        i = close + 1;
+                        continue;
+                    }
+                    _ => return None,
+                }
+                i += 2;
+            }
+            c => {
+                name.push(c);
+                i += 1;
+            }
+        }
+    }
+    let rest = std::str::from_utf8(&b[i..]).ok()?;
+    let rest = rest.strip_prefix(", ")?;
+    let close = rest.find(')')?;
+    let (s, e) = rest[..close].split_once(", ")?;
+    let used = (b.len() - i - rest.len()) + close + 1;
+    Some((String::from_utf8(name).ok()?, s.parse().ok()?, e.parse().ok()?, i + used))
 }
 
 fn run_body(c: &MinCase, inp: &str, out: &str) {
@@ -93,16 +183,16 @@ fn reset_event(c: &MinCase, mode: &str) -> Value {
 
 fn finish(c: &MinCase, out: &str, evs: &mut Vec<Value>) {
     if c.m2s {
-        decode_m2s(out, evs)
+        decode_m2s_with(out, evs, &|n| c.id_of(n))
     } else {
-        decode_s2m(out, evs)
+        decode_s2m_with(out, evs, &|n| c.id_of(n))
     }
 }
 
 pub fn free_run(c: &MinCase, dir: &str, perturb: Option<u64>) -> Vec<Value> {
     let inp = format!("{}/min_in.fa", dir);
     let out = format!("{}/min_out.txt", dir);
-    write_fasta_ids(&inp, &c.recs, &c.ids);
+    c.write_input(&inp);
     let _ = std::fs::remove_file(&out);
     let rec = Recorder::free(perturb);
     rec.reset_tasks();
@@ -145,7 +235,7 @@ pub fn gen_case(rng: &mut Rng, i: usize, maxrecs: usize) -> MinCase {
             recs.push((0..len).map(|_| *rng.pick(b"ACGT")).collect());
         }
         let ids = (0..recs.len()).collect();
-        return MinCase { m2s: false, w: 8, m: 7, threads: 6, recs, ids };
+        return MinCase { m2s: false, w: 8, m: 7, threads: 6, recs, ids, names: None };
     }
     let mut recs = recs;
     let mut ids: Vec<usize> = (0..recs.len()).collect();
@@ -161,7 +251,15 @@ pub fn gen_case(rng: &mut Rng, i: usize, maxrecs: usize) -> MinCase {
             ids.insert(at, id);
         }
     }
-    MinCase { m2s: i % 2 == 1, w, m, threads: 1 + rng.below(16) as usize, recs, ids }
+    // names as they occur in practice and beyond: database separators, coordinates, quotes, backslashes, non-ASCII (the m2s
+    // listing renders names as escaped string literals)
+    let names = if i % 4 >= 2 {
+        let specials = ["sp|P1|X_Y", "chr1:100-200(+)", "a\"b", "back\\slash", "it's", "[x]", "(p,q)", "\u{e9}t\u{e9}", "k=v;w", "a\"),(\"b", "\u{4e2d}", "tab_no"];
+        Some((0..recs.len()).map(|j| format!("{}_{}", specials[(i + j) % specials.len()], j)).collect())
+    } else {
+        None
+    };
+    MinCase { m2s: i % 2 == 1, w, m, threads: 1 + rng.below(16) as usize, recs, ids, names }
 }
 
 /// trace minout <seed> <runs> <dir> <maxrecs>
@@ -199,10 +297,10 @@ pub fn replay(schedfile: &str, threads: usize, dir: &str, seed: u64, stride: usi
             recs[1] = recs[0].clone();
             ids[1] = ids[0];
         }
-        let c = MinCase { m2s, w: if i % 2 == 0 { 0 } else { 4 }, m: 2, threads, recs, ids };
+        let c = MinCase { m2s, w: if i % 2 == 0 { 0 } else { 4 }, m: 2, threads, recs, ids, names: None };
         let inp = format!("{}/min_in.fa", dir);
         let out = format!("{}/min_out.txt", dir);
-        write_fasta_ids(&inp, &c.recs, &c.ids);
+        c.write_input(&inp);
         let _ = std::fs::remove_file(&out);
         let rec = Recorder::controlled(
             &["min.worker_start", "min.before_take", if m2s { "min.before_push" } else { "min.before_write" }],
@@ -260,7 +358,7 @@ pub fn replay(schedfile: &str, threads: usize, dir: &str, seed: u64, stride: usi
 pub fn decode(fasta: &str, out: &str, m2s: bool, w: usize, m: usize) {
     let recs = read_simple_fasta(fasta);
     let ids: Vec<usize> = read_simple_fasta_ids(fasta).iter().map(|&x| x.max(0) as usize).collect();
-    let c = MinCase { m2s, w, m, threads: 1, recs, ids };
+    let c = MinCase { m2s, w, m, threads: 1, recs, ids, names: None };
     let mut evs = vec![reset_event(&c, "cli")];
     finish(&c, out, &mut evs);
     for e in evs {
